@@ -50,8 +50,9 @@ def loop_key(eng, node):
 class IterView:
     """Indexable view of an iterable: length term + item(i) -> V."""
 
-    def __init__(self, length, item, concrete=None):
+    def __init__(self, length, item, concrete=None, seq=None):
         self.length, self.item, self.concrete = length, item, concrete
+        self.seq = seq  # the underlying z3 sequence when there is one (membership fact at the loop head)
 
 
 def iter_view(eng, st, it: V) -> IterView:
@@ -59,7 +60,7 @@ def iter_view(eng, st, it: V) -> IterView:
     if items is not None:
         return IterView(z3.IntVal(len(items)), None, items)
     if isinstance(it, ListV):
-        return IterView(z3.Length(it.t), lambda i: bm.elem_at(it.elem, it.t, i))
+        return IterView(z3.Length(it.t), lambda i: bm.elem_at(it.elem, it.t, i), seq=it.t)
     if isinstance(it, StrV):
         return IterView(z3.Length(it.t), lambda i: StrV(z3.SubString(it.t, i, 1)))
     if isinstance(it, bm.RangeV):
@@ -78,10 +79,10 @@ def iter_view(eng, st, it: V) -> IterView:
     if isinstance(it, bm.DictView):
         d = it.d
         if it.which == "items":
-            return IterView(z3.Length(d.keys), lambda i: TupleV([unbox(d.keys[i], d.kk), unbox(z3.Select(d.vals, d.keys[i]), d.vk)]))
-        return IterView(z3.Length(d.keys), lambda i: unbox(z3.Select(d.vals, d.keys[i]), d.vk))
+            return IterView(z3.Length(d.keys), lambda i: TupleV([unbox(d.keys[i], d.kk), unbox(z3.Select(d.vals, d.keys[i]), d.vk)]), seq=d.keys)
+        return IterView(z3.Length(d.keys), lambda i: unbox(z3.Select(d.vals, d.keys[i]), d.vk), seq=d.keys)
     if isinstance(it, DictV):
-        return IterView(z3.Length(it.keys), lambda i: unbox(it.keys[i], it.kk))
+        return IterView(z3.Length(it.keys), lambda i: unbox(it.keys[i], it.kk), seq=it.keys)
     h = eng.registry.iter_hook(it)
     if h is not None:
         return h(eng, st, it)
@@ -193,6 +194,10 @@ def _cut_for(eng, s: ast.For, st: State, view: IterView):
     i = z3.FreshConst(z3.IntSort(), idx_name)
     sh = havoc(eng, st, mods, "h")
     sh = sh.assume(z3.And(i >= 0, i < n))
+    if view.seq is not None:
+        # the current item is a member of the sequence being iterated (a fact of the theory of sequences
+        # that the solvers do not derive from nth by themselves)
+        sh = sh.assume(z3.Contains(view.seq, z3.Unit(view.seq[i])))
     gh = {idx_name: IntV(i), "_n": IntV(n)}
     for inv in lc.invariants:
         sh = sh.assume(eng.eval_contract_expr(inv, sh, gh, where="assume"))
